@@ -1,5 +1,6 @@
 import CTV.Model.Config
 import CTV.Gen.ConfigBodies
+import CTV.Model.ConfigSpec
 import CTV.Lemmas.Config
 /-!
 # C15: the hand-written configuration model follows the bodies regenerated from config.go / instance.go / handlers.go
@@ -123,7 +124,9 @@ set_option maxHeartbeats 2000000 in
 `ValidateLogConfig` returns an error, for every configuration and every outcome of the library oracles. -/
 theorem validate_tie (c : LogConfig) : (checksOf c).all id = accepted (validate c) := by
   rw [accepted_validate, ← conn_tie c]
-  unfold checksOf Gen.validateLogConfigChecks rejections
+  unfold checksOf
+  rw [Gen.validateLogConfigChecks_eq_spec]   -- from here on the pinned copy: independent of the regenerated shape
+  unfold Spec.validateLogConfigChecks rejections
   simp only [Gen.cfgEmptyLogId, Gen.cfgRejectsAll, Gen.cfgLimitBeforeStart, Gen.cfgMergeDelayBad, List.all_cons, List.all_nil, id]
   cases hp : c.pub <;> cases hq : c.priv <;> cases hf : c.frozen <;> cases hs : c.start <;> cases hl : c.limit <;>
     simp [tsOk, nsOf] <;>
